@@ -314,7 +314,8 @@ const KEYS: [&str; 4] = ["a", "b", "z", "%61"];
 // DESIGN's eight values plus one escape written with a lower-case hex digit (RFC 3986 2.1: both cases are equivalent)
 const VALUES: [&str; 9] = ["", "a", "%41", "%4", "%zz", "+", "%E3%81%82", "a%26b", "%4a"];
 
-pub enum Expect<T> { Value(T), Err(&'static str), Ambiguous(&'static str) }
+pub enum Expect<T> { Value(T), Err(&'static str), /// the pairs are well-defined but one does not denote a value of its field's type
+    Refuse(&'static str), Ambiguous(&'static str) }
 
 pub trait TextTarget: DeserializeOwned + Debug {
     const NAME: &'static str;
@@ -395,6 +396,33 @@ impl TextTarget for BTreeMap<String, String> {
     }
 }
 
+/// Scalar fields: the pair's *decoded* value must denote the scalar (`n=%37` is the pair (n, "7")).  Only canonical
+/// spellings are decided (what else `str::parse` accepts - `+5`, `007`, `1e0`, `inf` - is ambiguous).
+#[derive(Deserialize, Debug)] pub struct T6 { n: i32, f: bool, c: char, x: f64 }
+impl TextTarget for T6 {
+    const NAME: &'static str = "{n:i32,f:bool,c:char,x:f64}"; const FIELDS: &'static [&'static str] = &["n", "f", "c", "x"];
+    fn expect(p: &[(String, String)]) -> Expect<Self> {
+        let (n, f, c, x) = match (get(p, "n"), get(p, "f"), get(p, "c"), get(p, "x")) {
+            (Ok(Some(n)), Ok(Some(f)), Ok(Some(c)), Ok(Some(x))) => (n, f, c, x),
+            (Err(()), ..) | (_, Err(()), ..) | (_, _, Err(()), _) | (_, _, _, Err(())) => return Expect::Ambiguous("duplicate-key"),
+            _ => return Expect::Err("missing-field"),
+        };
+        let canonical_int = |s: &str| { let d = s.strip_prefix('-').unwrap_or(s); !d.is_empty() && d.bytes().all(|b| b.is_ascii_digit()) && (d == "0" || !d.starts_with('0')) && s != "-0" };
+        let n = if canonical_int(n) { match n.parse::<i32>() { Ok(v) => v, Err(_) => return Expect::Refuse("integer-out-of-range") } }
+            else if n.parse::<i32>().is_ok() { return Expect::Ambiguous("non-canonical-integer") } else { return Expect::Refuse("not-an-integer") };
+        let f = match f.as_str() { "true" => true, "false" => false, _ => return Expect::Refuse("not-a-bool") };
+        let c = { let mut it = c.chars(); match (it.next(), it.next()) { (Some(c), None) => c, _ => return Expect::Refuse("not-a-single-char") } };
+        let canonical_float = |s: &str| { let d = s.strip_prefix('-').unwrap_or(s); let mut parts = d.split('.'); let (i, fr, more) = (parts.next().unwrap_or(""), parts.next(), parts.next());
+            more.is_none() && !i.is_empty() && i.bytes().all(|b| b.is_ascii_digit()) && fr.map_or(true, |fr| !fr.is_empty() && fr.bytes().all(|b| b.is_ascii_digit())) };
+        let x = if canonical_float(x) { x.parse::<f64>().unwrap() } else if x.parse::<f64>().is_ok() { return Expect::Ambiguous("non-canonical-float") } else { return Expect::Refuse("not-a-number") };
+        Expect::Value(T6 { n, f, c, x })
+    }
+}
+const T6_N: [&str; 12] = ["7", "%37", "-3", "%2D3", "1%32", "%31%32", "2147483647", "2147483648", "%2B5", "x", "%78", ""];
+const T6_F: [&str; 6] = ["true", "%74rue", "fals%65", "x", "1", ""];
+const T6_C: [&str; 5] = ["a", "%61", "%E3%81%82", "ab", ""];
+const T6_X: [&str; 6] = ["1.5", "1%2E5", "%2D0.25", "3", "1.5.2", "%6E"];
+
 /// the first feature of the text that a shortcut could be sensitive to
 fn text_feature(raw: &[(&[u8], Option<&[u8]>)], fields: &[&str]) -> &'static str {
     if raw.is_empty() { return "no-pairs" }
@@ -448,6 +476,8 @@ fn judge<T: TextTarget>(ctx: &mut Ctx, route: &'static str, text: &[u8], feature
             else { ctx.violation(&cls("wrong-value"), true, || witness(dw, dv)) }
         }
         (Expect::Value(v), Ok(Err(e))) => ctx.violation(&cls("refused-should-accept"), true, || witness(format!("Err({e})"), dbg(v))),
+        (Expect::Refuse(_), Ok(Err(_))) => ctx.pass(&format!("{route}:ill-typed-value-refused"), true, collision),
+        (Expect::Refuse(why), Ok(Ok(w))) => ctx.violation(&cls(&format!("accepted-should-refuse:{why}")), true, || witness(dbg(&w), format!("an error ({why})"))),
     }
 }
 
@@ -485,6 +515,7 @@ fn check_text(ctx: &mut Ctx, text: &[u8], only_target: Option<&str>, only_route:
         if routes.0 || routes.1 { check_text_target::<$ty>(ctx, text, &raw, &decoded, conn.as_ref(), routes) }
     } } }
     t!(T1); t!(T2); t!(T3); t!(T4); t!(T5); t!(BTreeMap<String, String>);
+    if only_target == Some(T6::NAME) { t!(T6); }
     // Request.query.iter()
     if want("iter", "query-iter") {
         let feature = text_feature(&raw, &[]);
@@ -501,6 +532,16 @@ fn check_text(ctx: &mut Ctx, text: &[u8], only_target: Option<&str>, only_route:
             },
         }
     }
+}
+
+/// every text `n=..&f=..&c=..&x=..` over the scalar menus, in declaration order and reversed
+fn typed_texts(ctx: &mut Ctx) {
+    for n in T6_N { for f in T6_F {
+        if !ctx.mine() { continue }
+        for c in T6_C { for x in T6_X {
+            for text in [format!("n={n}&f={f}&c={c}&x={x}"), format!("x={x}&c={c}&f={f}&n={n}")] { check_text(ctx, text.as_bytes(), Some(T6::NAME), None); }
+        } }
+    } }
 }
 
 fn texts(ctx: &mut Ctx, max_pairs: usize) {
@@ -545,6 +586,7 @@ pub fn run(ctx: &mut Ctx) {
     values(ctx, tier, None);
     let max_pairs = if ctx.quick() { 3 } else { 4 };
     texts(ctx, max_pairs);
+    typed_texts(ctx);
     ctx.sample(|| json!({"part": "text", "text": "b=%E3%81%82&z=+&%61=a%26b", "reference_pairs": dbg(&refenc::decode_pairs(b"b=%E3%81%82&z=+&%61=a%26b"))}));
     ctx.extra.insert("rule".into(), json!("part 1: one case = one value of a shape's finite domain (full product of the field domains), checked for from_bytes(to_string(v)) == v and against the reference encoder/decoder; non-trivial = every value except the empty map; collision = the encoded text needs an escape or the value carries a known hazard (delimiter char, Some(\"\"), sequence, renamed variant, empty key). part 2: one case = (text of <= N pairs over 4 keys x 9 values, target, route) with route in from_bytes / Request.query.parse / Request.query.iter; collision = escaped key or value, unknown key, or keys not in declaration order. Every case is distinct by construction."));
     ctx.extra.insert("bounds".into(), json!({
